@@ -7,6 +7,7 @@ import Cog.Builder.FromAST
 import Cog.Builder.Safe
 import Cog.Builder.Witness
 import Cog.Builder.Str
+import Cog.Builder.Veneers
 namespace Cog.Drv
 open Cog Cog.IR Cog.Builder
 
@@ -32,6 +33,17 @@ def c16predLine (rest : String) : String :=
           | none => false
         | _ => true
       s!"safe={Safe ss} nocr={nocr}"
+
+/-- `veneer <rules> <schemas> <builders>`: load the rule files, apply `Rewriter.ApplyTo` -/
+def veneerLine (rest : String) : String :=
+  match Sexp.parseMany rest with
+  | some [r, s, b] =>
+    match Builder.Vir.veneersIn r, IR.Vir.schemasIn s, Builder.Vir.buildersIn b with
+    | some (lang, files), some ss, some bs =>
+      let (files, n) := Builder.Vir.numberFiles files 1
+      Builder.Vir.outcomeOut (rewrite files lang ss bs n)
+    | _, _, _ => "bad-vir"
+  | _ => "bad-sexp"
 
 /-- `c16witness <name>`: VIR text of the Lean-side counterexample witness -/
 def c16witnessLine (rest : String) : String :=
